@@ -6,6 +6,7 @@ import (
 	"encoding/json"
 	"fmt"
 	"io"
+	"reflect"
 	"regexp"
 	"strconv"
 	"strings"
@@ -167,6 +168,19 @@ func dotReplay(in io.Reader, raw bool, args []string) (*Summary, error) {
 		}.Sprint(graph.IntGraph(adj))
 		if msg := dotDocCheck(doc2, adj, label); msg != "" {
 			sum.viol("Dot-attrs", c, "%s; document:\n%s", msg, doc2)
+		}
+		// attribute slices handed out as prefixes of one shared table (spare capacity behind them), without a label
+		// attribute so that the default label is added: the table must stay as it was, the document must be the same
+		// when printed again, and every node must carry its own label
+		table := []graphout.DotAttr{{Name: "color", Val: "red"}, {Name: "shape", Val: "box"}, {Name: "style", Val: "bold"}}
+		keepT := append([]graphout.DotAttr{}, table...)
+		shared := graphout.Dot{Label: label, NodeAttrs: func(i int) []graphout.DotAttr { return table[: 1+i%2 : 3] }}
+		d1 := shared.Sprint(graph.IntGraph(adj))
+		d2 := shared.Sprint(graph.IntGraph(adj))
+		if d1 != d2 || !reflect.DeepEqual(table, keepT) {
+			sum.viol("Dot-attrs-shared", c, "printing changed the caller's attribute table or is not repeatable:\n%s\n---\n%s", d1, d2)
+		} else if msg := dotDocCheck(d1, adj, label); msg != "" {
+			sum.viol("Dot-attrs-shared", c, "%s; document:\n%s", msg, d1)
 		}
 		if name, used := dotUnquote(strings.TrimPrefix(strings.Split(doc2, "\n")[0], "digraph ")); used == 0 || name != s {
 			// the first line may contain an escaped newline only, so Split is safe
